@@ -9,8 +9,11 @@ def crash_signature(pid, job, rc, err):
     where = "unknown"
     m = re.findall(r"panic thread=\S+ at (\S+?):(\d+)", err)
     if m:
-        f, _line = m[-1]
+        inrepo = [x for x in m if x[0].startswith("/repo/")]
+        f, _line = (inrepo[0] if inrepo else m[-1])
         f = f.replace("/repo/", "")
+        if f.startswith("/rustc/"):
+            f = "std:" + f.split("/library/")[-1]
         where = f
     elif "AddressSanitizer" in err:
         m2 = re.search(r"AddressSanitizer: ([a-z\-]+)", err)
